@@ -49,6 +49,7 @@ type sim struct {
 	idleSteps    int
 	idleNext     int
 	refused      map[int]map[int64]bool
+	dir          *forkDirector
 
 	mon *monitor
 }
@@ -146,6 +147,13 @@ func genConfig(rng *simcore.RNG, env *simcore.Env) simcore.Op {
 	c["skew"] = rng.Bool(0.3)
 	c["gst"] = prop == "C03" || rng.Bool(0.3)
 	c["max_bytes"] = []int{0, 0, 4000, 22020096}[rng.Intn(4)]
+	c["nemesis"] = "none"
+	if (prop == "C01" || prop == "C02") && rng.Bool(0.6) {
+		c["nemesis"] = "fork"
+		if rng.Bool(0.7) {
+			c["crash"] = false
+		}
+	}
 	return c
 }
 
@@ -193,6 +201,9 @@ func newSim(env *simcore.Env, cfg simcore.Op) simcore.Sim {
 	s.genDoc = gd
 	s.targetH = ih + int64(cfg.Int("heights")) - 1
 	s.group = make([]int, len(s.nodes))
+	if cfg.Str("nemesis") == "fork" {
+		s.dir = &forkDirector{}
+	}
 	for _, n := range s.nodes {
 		n.start()
 		if f := n.failureMsg(); f != "" {
@@ -564,6 +575,13 @@ func (s *sim) Next(rng *simcore.RNG) simcore.Op {
 		}
 		return nil
 	}
+	dirActive := false
+	if s.dir != nil && s.dir.phase != 9 {
+		if op := s.dir.next(s, rng); op != nil {
+			return op
+		}
+		dirActive = s.dir.phase >= 1 && s.dir.phase <= 4
+	}
 	items := s.deliverables()
 	var pend []*simNode
 	for _, n := range s.alive() {
@@ -583,7 +601,7 @@ func (s *sim) Next(rng *simcore.RNG) simcore.Op {
 	switch {
 	case len(dead) > 0 && roll < 60:
 		return simcore.Op{"a": "restart", "node": dead[rng.Intn(len(dead))].idx}
-	case s.cfg.Bool("crash") && roll < 60+5*s.cfg.Int("crash_rate") && len(s.alive()) > 0 && len(s.armed) == 0:
+	case !dirActive && s.cfg.Bool("crash") && roll < 60+5*s.cfg.Int("crash_rate") && len(s.alive()) > 0 && len(s.armed) == 0:
 		n := s.alive()[rng.Intn(len(s.alive()))]
 		op := simcore.Op{"a": "crash", "node": n.idx, "after": rng.Range(1, 40), "db_keep": rng.Intn(1001), "wal_keep": rng.Intn(1001)}
 		if rng.Bool(0.3) {
@@ -598,7 +616,7 @@ func (s *sim) Next(rng *simcore.RNG) simcore.Op {
 			op["wal_garb_x"] = rng.Intn(255)
 		}
 		return op
-	case s.cfg.Bool("partition") && roll < 100 && len(s.nodes) > 1:
+	case !dirActive && s.cfg.Bool("partition") && roll < 100 && len(s.nodes) > 1:
 		g := make([]int, len(s.nodes))
 		if rng.Bool(0.5) {
 			for i := range g {
@@ -618,8 +636,10 @@ func (s *sim) Next(rng *simcore.RNG) simcore.Op {
 	case s.cfg.Bool("skew") && roll < 140 && len(s.nodes) > 0:
 		return simcore.Op{"a": "skew", "node": rng.Intn(len(s.nodes)), "ms": rng.Range(-2000, 2000)}
 	}
-	if bop := s.nextByz(rng, roll); bop != nil {
-		return bop
+	if !dirActive {
+		if bop := s.nextByz(rng, roll); bop != nil {
+			return bop
+		}
 	}
 	fireTimeout := len(pend) > 0 && (len(items) == 0 || rng.Intn(100) < s.cfg.Int("timeout_rate"))
 	if fireTimeout {
